@@ -228,6 +228,46 @@ func canon(t asetypes.DataType, x interface{}) sx.T {
 	return sx.L{sx.I(-997)}
 }
 
+// renderObj renders the Go value object x that goValue built for v in the form of val.tree(), as a SNAPSHOT (nothing in
+// the result shares memory with x): what a caller who kept x would read from it now. Rendered before and after
+// DataType.Bytes to see whether encoding left the caller's value alone.
+func renderObj(v val, x interface{}) (o sx.T) {
+	defer func() {
+		if r := recover(); r != nil {
+			o = sx.L{sx.I(-996)}
+		}
+	}()
+	switch y := x.(type) {
+	case int:
+		return val{kind: kInt, ik: iInt, z: big.NewInt(int64(y))}.tree()
+	case uint:
+		return val{kind: kInt, ik: iUint, z: new(big.Int).SetUint64(uint64(y))}.tree()
+	case []byte:
+		return vBytes(append([]byte{}, y...)).tree()
+	case string:
+		if v.kind == kText {
+			return vText([]rune(y)).tree()
+		}
+		return vStr([]byte(y)).tree()
+	case *asetypes.Decimal:
+		if y == nil {
+			return sx.L{sx.I(-998)}
+		}
+		return vDec(y.Precision, y.Scale, decInt(y)).tree()
+	}
+	return canon(0, x) // immutable kinds (integers, floats, bool, time.Time by value) and nil
+}
+
+// decInt: a copy of the Decimal's integer, nil for a Decimal without a big.Int (Int() dereferences it)
+func decInt(y *asetypes.Decimal) (z *big.Int) {
+	defer func() {
+		if r := recover(); r != nil {
+			z = nil
+		}
+	}()
+	return y.Int()
+}
+
 func okT(x sx.T) sx.T { return sx.L{sx.I(0), x} }
 
 var errT = sx.L{sx.I(2)}
